@@ -823,18 +823,21 @@ func SharePyNames(r *run.Rand, a, b *PyModule) []string {
 		cb.Name = ca.Name
 		shared = append(shared, "class "+ca.Name)
 	}
-	var capital []*PyFunc
+	// a function both modules declare; it gets a capitalised name (the flattened model keeps those)
+	var cand []*PyFunc
 	for _, fn := range a.Funcs() {
-		if fn.Name[0] >= 'A' && fn.Name[0] <= 'Z' {
-			capital = append(capital, fn)
+		if c := fn.Name[0]; c >= 'a' && c <= 'z' || c >= 'A' && c <= 'Z' {
+			cand = append(cand, fn)
 		}
 	}
-	if bf := b.Funcs(); len(capital) > 0 && len(bf) > 0 && (r.Chance(1, 2) || len(shared) == 0) {
-		fa, fb := capital[r.Intn(len(capital))], bf[r.Intn(len(bf))]
+	if bf := b.Funcs(); len(cand) > 0 && len(bf) > 0 && (r.Chance(1, 2) || len(shared) == 0) {
+		fa, fb := cand[r.Intn(len(cand))], bf[r.Intn(len(bf))]
+		fa.Name = capitalize(fa.Name)
 		fb.Name = fa.Name
 		shared = append(shared, "def "+fa.Name)
 	}
 	if len(shared) > 0 {
+		a.render()
 		b.render()
 	}
 	return shared
